@@ -652,6 +652,9 @@ def run(F, rep, tier):
     rep.attempt(rule_r8, F, rep)
     from . import c06
     rep.attempt(c06.rule_r3, F, rep)      # numbers reach the document only through Display of the f64 itself
+    # the field list that every manifester prints comes from get_fields_order: its removal-marker arithmetic (C07.R8)
+    from . import c07
+    rep.attempt(c07.rule_r8, F, rep)
     rep.assume("round-trip equality of emitted documents is value-level and not decided; number text is "
                "delegated to <f64 as Display> (std, trusted)")
     return EXPLANATION
